@@ -114,7 +114,7 @@ def run_cfg(args):
     hdr = gen.data_header(rng, hf, btf=N, a=conf, sap=sap,
                           llid_source=rng.randrange(1, 1 << 24), pad=pad)
     trace = {"cfg": {"L": L, "rate": rate, "conf": conf, "p": p}, "ev": [], "seed": seed,
-             "fin": None, "gen_error": "", "extra": {k: cfg[k] for k in ("late", "noise") if cfg.get(k)}}
+             "fin": None, "gen_error": "", "extra": {k: cfg[k] for k in ("late", "noise", "late_kind") if cfg.get(k)}}
     sink = io.StringIO()
     try:
         with contextlib.redirect_stdout(sink):
@@ -140,9 +140,15 @@ def run_cfg(args):
                 # the receiver entered late into an earlier transmission and heard only some of its data blocks (no header, not
                 # the last block); then the generated transmission arrives complete
                 from harness.drivers.c01 import make_pdu
-                for _ in range(cfg["late"]):
-                    pdu, dt, _t = make_pdu(rng, rate + ("/c" if conf else "/u"))
-                    strays.append(Burst.from_bytes(gen.assemble_data_burst(pdu, dt, cc, gen.DATA_SYNCS[0])))
+                from okdmr.dmrlib.etsi.layer2.elements.data_types import DataTypes
+                if cfg.get("late_kind") == "stale-preamble":
+                    # ... or only ONE preamble of an earlier transmission whose remaining bursts were lost
+                    pre_ = gen.preamble_csbk(rng, 2 + cfg["late"], source_address=rng.randrange(1, 1 << 24))
+                    strays.append(Burst.from_bytes(gen.assemble_data_burst(pre_, DataTypes.CSBK, cc, gen.DATA_SYNCS[0])))
+                else:
+                    for _ in range(cfg["late"]):
+                        pdu, dt, _t = make_pdu(rng, rate + ("/c" if conf else "/u"))
+                        strays.append(Burst.from_bytes(gen.assemble_data_burst(pdu, dt, cc, gen.DATA_SYNCS[0])))
     except Exception as ex:  # noqa
         trace["gen_error"] = type(ex).__name__ + ": " + str(ex)[:200]
         return trace
@@ -196,8 +202,12 @@ def run_cfg(args):
         except Exception as ex:  # noqa
             out["outcome"] = "raise:" + type(ex).__name__
         out["ev"] = list(events)
-        nstart += sum(1 for e in events if e["e"] == "started")
-        nend += sum(1 for e in events if e["e"] == "ended")
+        # the clauses are about the generated transmission: 'started' notifications are counted from its first burst on, 'data ended'
+        # notifications when they hand over ITS header (what a receiver with a past does about the earlier transmission - flushes it,
+        # drops it - is its own business and not counted against the generated one)
+        if pos > len(strays):
+            nstart += sum(1 for e in events if e["e"] == "started")
+            nend += sum(1 for e in events if e["e"] == "ended" and (not strays or e.get("hid") == len(strays) + p + 1))
         trace["ev"].append({"ts": 1, "op": "burst", "b": abstract(pb, pos), "out": out, "post": project(),
                             "obs": [list(events)]})
     # ---- summary
@@ -205,7 +215,8 @@ def run_cfg(args):
     hdr_pad = -1
     crc32ok = False
     if handed:
-        h, bl = handed[0]
+        mine = [x for x in handed if matcher.one(x[0]) == len(strays) + p + 1] if strays else handed
+        h, bl = (mine or handed)[0]
         hdr_pad = getattr(h, "pad_octet_count", -1)
         rb = [x for x in bl if type(x).__name__ in ("Rate12Data", "Rate34Data", "Rate1Data")]
         for x in rb:
@@ -239,6 +250,8 @@ def judge(ctx, traces, rejects):
         t = traces[tid]
         c = t["cfg"]
         key = f"generator/{why}/{c['rate']}/{'confirmed' if c['conf'] else 'unconfirmed'}"
+        if (t.get("extra") or {}).get("late_kind"):
+            key += "/after-" + t["extra"]["late_kind"]
         ctx.violation(key, f"configuration {c} breaks {why} (step {l} of {len(t['ev'])})",
                       {"cfg": c, "seed": t["seed"], "clause": why, "N": t.get("N"), "pad": t.get("pad"),
                        "fin": t["fin"], "extra": t.get("extra") or {}})
@@ -353,7 +366,8 @@ def late_entry_phase(ctx, cfgs):
     pick = [c for c in cfgs if c["L"] <= 80]
     ctx.rng.shuffle(pick)
     pick = pick[:120 if ctx.quick else 1500]
-    jobs = [(ctx.seed * 91 + n, dict(c, late=1 + n % 3)) for n, c in enumerate(pick)]
+    # one in four of them heard something else of the earlier transmission: a single stale preamble CSBK
+    jobs = [(ctx.seed * 91 + n, dict(c, late=1 + n % 3, **({"late_kind": "stale-preamble"} if n % 4 == 3 else {}))) for n, c in enumerate(pick)]
     with Pool(core.NCPU) as pool:
         traces = pool.map(run_cfg, jobs, chunksize=8)
     ok = []
